@@ -232,9 +232,14 @@ package slip
 //@   property C11 C10
 //@   requires sane-index: 0 - 1 <= wl.Current && wl.Current < 4611686018427387904
 //@   on-call Call next-wrapper: (forall j :: (old(wl.Current) < j && j < wl.Current) ==> wl.Method.Combinations[j].Wrap == nil) && wl.Method.Combinations[wl.Current].Wrap != nil
+//@   on-call Let location-names-the-running-wrapper: as($arg1, ptr(WhopLoc)).Current == wl.Current && as($arg1, ptr(WhopLoc)).Method == wl.Method
 //@   on-call InnerCall no-wrapper-left: forall j :: (old(wl.Current) < j && j < len(wl.Method.Combinations)) ==> wl.Method.Combinations[j].Wrap == nil
 //@   loop wl.Current: invariant scanned: old(wl.Current) < wl.Current && wl.Method == old(wl.Method) && (forall j :: (old(wl.Current) < j && j < wl.Current) ==> wl.Method.Combinations[j].Wrap == nil)
 
+// asking whether a next method exists does not move the location
+//@ func slip.(*WhopLoc).HasNext
+//@   property C11 C10
+//@   no-store Current
 //@ func slip.(*Method).HasMethodFromClass
 //@   property C11
 //@   ensures absent: !result0 ==> (forall j :: (0 <= j && j < len(m.Combinations) && m.Combinations[j].From != nil) ==> Name(m.Combinations[j].From) != from)
